@@ -15,9 +15,11 @@ namespace Drv
 /-- Stateless command tables, tried in order. -/
 def tables : List (String → List String → Option String) := []
   ++ [Drv.table]
+  ++ [Drv.T2.table]
 
 /-- Stateful groups, selected by a first line `#mode <name>`. -/
 def modes : List Mode := []
+  ++ [Drv.T2.mode]
 
 def dispatch (line : String) : String :=
   match tokens line with
